@@ -60,6 +60,8 @@ def _q(prog, func, call):
 def _bind(call, callee):
     """callee parameter name -> argument expression (None when the call uses * or **)"""
     ps = callee.params()
+    if callee.cls is not None and callee.parent is None and not callee.is_staticmethod() and ps and ps[0] in ('self', 'cls'):
+        ps = ps[1:]  # bound call: the receiver is not among the arguments
     out = {}
     for i, a in enumerate(call.args):
         if isinstance(a, ast.Starred) or i >= len(ps):
@@ -254,13 +256,43 @@ class LoadFacts:
 # R-C18-1  appended exactly once, with its outcome
 
 
-class _Count(Flow):
-    """number of calls of one repository function along each path: state (0|1|2=more, '-'|'handled')"""
+HELPER_DEPTH = 2
 
-    def __init__(self, prog, func, target, raising=None):
+
+def _helper(prog, func, call):
+    """repository function of the same module that a call resolves to (candidate for inlining), else None"""
+    q = _q(prog, func, call)
+    h = prog.funcs.get(q)
+    if h is not None and h.module is func.module and h is not func:
+        return h
+    return None
+
+
+def _reaches(prog, func, targets, depth=HELPER_DEPTH):
+    """does func call one of targets, directly or through same-module helpers (bounded depth)"""
+    for c in func.calls():
+        if _q(prog, func, c) in targets:
+            return True
+        h = _helper(prog, func, c) if depth > 0 else None
+        if h is not None and _reaches(prog, h, targets, depth - 1):
+            return True
+    return False
+
+
+class _Count(Flow):
+    """number of calls of one repository function along each path: state (0|1|2=more, '-'|'handled').
+    Calls of same-module helpers are summarised by the set of counts at the helper's exits (followed HELPER_DEPTH levels),
+    so moving the call into a private helper does not change the verdict."""
+
+    def __init__(self, prog, func, target, raising=None, depth=HELPER_DEPTH):
         super().__init__()
-        self.prog, self.func, self.target, self.raising = prog, func, target, raising
-        self.sites = []
+        self.prog, self.func, self.target, self.raising, self.depth = prog, func, target, raising, depth
+        self.sites = []  # calls in this function that (may) lead to the target
+
+    def _summary(self, h):
+        fl = _Count(self.prog, h, self.target, None, self.depth - 1)
+        o = fl.run(h.node, (0, '-'))
+        return {n for n, _h in (o.normal | o.ret)}, bool(fl.sites)
 
     def on_call(self, call, st):
         n, h = st
@@ -268,10 +300,21 @@ class _Count(Flow):
             if not any(c is call for c in self.sites):
                 self.sites.append(call)
             return ((min(n + 1, 2), h),)
+        hf = _helper(self.prog, self.func, call) if self.depth > 0 else None
+        if hf is not None and _reaches(self.prog, hf, {self.target}, self.depth - 1):
+            ks, _any = self._summary(hf)
+            if not any(c is call for c in self.sites):
+                self.sites.append(call)
+            return tuple((min(n + k, 2), h) for k in (ks or {0}))
         return (st,)
 
     def may_raise(self, call, st):
-        return self.raising is None or _q(self.prog, self.func, call) in self.raising
+        if self.raising is None:
+            return True
+        if _q(self.prog, self.func, call) in self.raising:
+            return True
+        hf = _helper(self.prog, self.func, call) if self.depth > 0 else None
+        return hf is not None and _reaches(self.prog, hf, self.raising, self.depth - 1)
 
     def on_handler(self, h, st):
         return ((st[0], 'handled'),)
@@ -283,8 +326,34 @@ def _exit_counts(prog, func, target, raising=None):
     return fl, (o.normal | o.ret)
 
 
+def _args_at(prog, top, target, param, depth=HELPER_DEPTH):
+    """[(site in top, scope function, expression)] for the argument bound to `param` of `target` at every call reached
+    from top directly or through same-module helpers; an argument that is merely a forwarded helper parameter is
+    translated back into the caller's scope"""
+    out = []
+    tf = prog.func(target)
+    for c in top.calls():
+        if _q(prog, top, c) == target:
+            out.append((c, top, (_bind(c, tf) or {}).get(param)))
+            continue
+        h = _helper(prog, top, c) if depth > 0 else None
+        if h is None or not _reaches(prog, h, {target}, depth - 1):
+            continue
+        for _c2, scope, e in _args_at(prog, h, target, param, depth - 1):
+            if scope is h and isinstance(e, ast.Name) and e.id in h.params() and not any(
+                isinstance(n, ast.Name) and n.id == e.id and isinstance(n.ctx, ast.Store) for n in h.own_nodes()
+            ):
+                out.append((c, top, (_bind(c, h) or {}).get(e.id)))
+            else:
+                out.append((c, scope, e))
+    return out
+
+
 def _dict_arg(func, call):
-    a = call.args[0] if call.args else None
+    return _dict_of(func, call.args[0] if call.args else None)
+
+
+def _dict_of(func, a):
     if isinstance(a, ast.Name):
         vals = assigned_value(func, a.id)
         if len(vals) == 1:
@@ -300,19 +369,32 @@ def _required_keys(prog, lf):
     ep = fa.params()[0]
     top, timing = set(), set()
     validated = set()
+    def literal(e):
+        if isinstance(e, ast.Name) and e.id in fa.module.globals and len(fa.module.globals[e.id]) == 1:
+            e = fa.module.globals[e.id][0]  # module-level constant such as _REQUIRED_KEYS
+        if isinstance(e, (ast.List, ast.Tuple, ast.Set)):
+            return {x.value for x in e.elts if isinstance(x, ast.Constant) and isinstance(x.value, str)}
+        return None
+
+    def membership(e, var):
+        return (
+            isinstance(e, ast.Compare)
+            and _is_name(e.left, var)
+            and len(e.ops) == 1
+            and isinstance(e.ops[0], (ast.In, ast.NotIn))
+            and _is_name(e.comparators[0], ep)
+        )
+
     for n in fa.own_nodes():
-        if isinstance(n, (ast.GeneratorExp, ast.ListComp)) and len(n.generators) == 1:
+        if isinstance(n, (ast.GeneratorExp, ast.ListComp, ast.SetComp)) and len(n.generators) == 1:
             g = n.generators[0]
-            if (
-                isinstance(g.iter, (ast.List, ast.Tuple, ast.Set))
-                and isinstance(g.target, ast.Name)
-                and isinstance(n.elt, ast.Compare)
-                and _is_name(n.elt.left, g.target.id)
-                and len(n.elt.ops) == 1
-                and isinstance(n.elt.ops[0], ast.In)
-                and _is_name(n.elt.comparators[0], ep)
-            ):
-                validated |= {x.value for x in g.iter.elts if isinstance(x, ast.Constant) and isinstance(x.value, str)}
+            ks = literal(g.iter)
+            if ks is not None and isinstance(g.target, ast.Name) and (membership(n.elt, g.target.id) or any(membership(c, g.target.id) for c in g.ifs)):
+                validated |= ks
+        if isinstance(n, ast.For) and isinstance(n.target, ast.Name):
+            ks = literal(n.iter)
+            if ks is not None and any(membership(x, n.target.id) for x in ast.walk(n)):
+                validated |= ks
 
     def uses(func, var):
         for n in func.own_nodes():
@@ -519,10 +601,11 @@ def _rule1(ctx, rep, lf):
         if not validated:
             r.note('chronicle.append no longer validates a literal key list; required keys derived from subscript uses only')
         status_param = None
-        for call in fl.sites:
+        entry_param = fa.params()[0]
+        for call, scope, expr in _args_at(prog, fc, Q_APPEND, entry_param):
             r.instance()
-            d = _dict_arg(fc, call)
-            key = f'{fc.qname}:{norm(call.func)}:entry'
+            d = _dict_of(scope, expr)
+            key = f'{fc.qname}:chronicle.append:entry'
             if d is None:
                 r.fail(key, where(fc, call), 'the entry handed to chronicle.append is not a dict literal with constant keys: its shape cannot be compared with what append demands')
                 continue
@@ -559,61 +642,74 @@ def _rule1(ctx, rep, lf):
             f"entry['timing']['completed'] reaches chronicle.append in form {forms} (None = not set on some path, '?' = not understood); "
             f'append files an entry under the text before {split_sep!r} of that value, accepted forms are {sorted(accepted)}',
         )
-        # (d) every caller of complete: Hand._res applies a reply exactly once; nobody else may complete twice on a path
+        # (d) Hand._res applies a found reply exactly once (complete may sit in a same-module helper); every other
+        #     direct caller of complete that is not such a helper calls it at most once per path
+        g = fr
+        r.instance()
+        fl2, ex2 = _exit_counts(prog, g, Q_COMPLETE, raising={Q_SFIND})
+        if not fl2.sites:
+            raise AnalysisError('Hand._res no longer reaches schedule.complete (directly or through a helper of pl/farm.py)')
+        helpers = set()
+        for c in fl2.sites:
+            hq = _q(prog, g, c)
+            if hq != Q_COMPLETE:
+                helpers |= {hq} | {q2 for q2 in cg.reachable([hq], kinds={DIRECT}) if q2 in prog.funcs and prog.funcs[q2].module is g.module}
+        bad2 = sorted({n for n, h in ex2 if (h == '-' and n != 1) or (h == 'handled' and n > 1)})
+        r.check(
+            not bad2,
+            f'{Q_RES}:complete-exactly-once',
+            where(g, fl2.sites[0]),
+            f'{len(ex2)} exit state(s); every path on which schedule.find succeeded calls complete exactly once'
+            + (f' (through {sorted(helpers)})' if helpers else ''),
+            'Hand._res has a path on which the job was found and schedule.complete is called '
+            + ' / '.join({0: 'not at all', 2: 'more than once'}[n] for n in bad2),
+        )
+        # the restriction of exception edges to schedule.find is justified only if nothing broader is swallowed
+        par = _parents(g.node)
+        for c in fl2.sites:
+            n = c
+            while n in par:
+                n = par[n]
+                if isinstance(n, ast.Try):
+                    for h in n.handlers:
+                        r.check(
+                            isinstance(h.type, ast.Name) and h.type.id == 'IndexError',
+                            f'{Q_RES}:except {norm(h.type) if h.type else ""}',
+                            where(g, h),
+                            'only the IndexError of a failed job lookup is swallowed around complete',
+                            f'handler `except {norm(h.type) if h.type else ""}` around schedule.complete swallows more than the failed job lookup: a run that could not be recorded disappears silently',
+                            nontrivial=False,
+                        )
+        # the outcome handed over is the translated reply
+        if status_param is not None:
+            for c, scope, a in _args_at(prog, g, Q_COMPLETE, status_param):
+                v = a
+                if isinstance(a, ast.Name):
+                    vals = assigned_value(scope, a.id)
+                    v = vals[0] if len(vals) == 1 else None
+                okv = isinstance(v, ast.Call) and _q(prog, scope, v) == Q_TRANSLATE and bool(names_in(v) & set(scope.params()))
+                r.check(okv, f'{Q_RES}:complete:outcome', where(g, c), 'status argument is Hand._translate(<reply>.success)', f'the status argument {norm(a) if a is not None else "?"} of complete is not the translation of the reply being processed')
         callers = {}
         for e in cg.callers(Q_COMPLETE):
             if e.src is not None:
                 callers.setdefault(e.src.qname, []).append(e)
-        if Q_RES not in callers:
-            raise AnalysisError('Hand._res no longer calls schedule.complete')
         for qn, es in sorted(callers.items()):
-            r.instance()
-            g = prog.funcs[qn]
-            rep.analysed(g)
+            g2 = prog.funcs[qn]
+            rep.analysed(g2)
             if any(e.kind != DIRECT for e in es):
-                r.fail(f'{qn}:complete-as-value', where(g), 'schedule.complete is passed around as a value: how often it runs per unit cannot be bounded')
+                r.instance()
+                r.fail(f'{qn}:complete-as-value', where(g2), 'schedule.complete is passed around as a value: how often it runs per unit cannot be bounded')
                 continue
             if qn == Q_RES:
-                fl2, ex2 = _exit_counts(prog, g, Q_COMPLETE, raising={Q_SFIND})
-                bad2 = sorted({n for n, h in ex2 if (h == '-' and n != 1) or (h == 'handled' and n > 1)})
-                r.check(
-                    not bad2,
-                    f'{qn}:complete-exactly-once',
-                    where(g, fl2.sites[0] if fl2.sites else None),
-                    f'{len(ex2)} exit state(s); every path on which schedule.find succeeded calls complete exactly once',
-                    'Hand._res has a path on which the job was found and schedule.complete is called '
-                    + ' / '.join({0: 'not at all', 2: 'more than once'}[n] for n in bad2),
-                )
-                # the restriction of exception edges to schedule.find is justified only if nothing broader is swallowed
-                par = _parents(g.node)
-                for c in fl2.sites:
-                    n = c
-                    while n in par:
-                        n = par[n]
-                        if isinstance(n, ast.Try):
-                            for h in n.handlers:
-                                r.check(
-                                    isinstance(h.type, ast.Name) and h.type.id == 'IndexError',
-                                    f'{qn}:except {norm(h.type) if h.type else ""}',
-                                    where(g, h),
-                                    'only the IndexError of a failed job lookup is swallowed around complete',
-                                    f'handler `except {norm(h.type) if h.type else ""}` around schedule.complete swallows more than the failed job lookup: a run that could not be recorded disappears silently',
-                                    nontrivial=False,
-                                )
-                # the outcome handed over is the translated reply
-                if status_param is not None:
-                    for c in fl2.sites:
-                        b = _bind(c, fc) or {}
-                        a = b.get(status_param)
-                        v = a
-                        if isinstance(a, ast.Name):
-                            vals = assigned_value(g, a.id)
-                            v = vals[0] if len(vals) == 1 else None
-                        okv = isinstance(v, ast.Call) and _q(prog, g, v) == Q_TRANSLATE and bool(names_in(v) & set(g.params()))
-                        r.check(okv, f'{qn}:{norm(c)}:outcome', where(g, c), 'status argument is Hand._translate(<reply>.success)', f'the status argument {norm(a) if a is not None else "?"} of complete is not the translation of the reply being processed')
-            else:
-                _fl3, ex3 = _exit_counts(prog, g, Q_COMPLETE)
-                r.check(max((n for n, _h in ex3), default=0) <= 1, f'{qn}:complete-at-most-once', where(g), 'at most one complete per path', f'{qn} may call schedule.complete more than once on one path')
+                continue
+            if qn not in helpers:
+                r.instance()
+            _fl3, ex3 = _exit_counts(prog, g2, Q_COMPLETE)
+            r.check(max((n for n, _h in ex3), default=0) <= 1, f'{qn}:complete-at-most-once', where(g2), 'at most one complete per path', f'{qn} may call schedule.complete more than once on one path')
+            # a helper of Hand._res must not be used by anybody else (the reply would be applied from two places)
+            if qn in helpers:
+                others = sorted({e.src.qname for e in cg.callers(qn) if e.src is not None and e.src.qname != Q_RES and e.src.qname not in helpers})
+                r.check(not others, f'{qn}:only-from-_res', where(g2), 'helper of Hand._res has no other caller', f'{qn} (which completes a unit) is also called from {others}', nontrivial=False)
         # (e) a reply is applied once: callers of Hand._res
         for qn in sorted({e.src.qname for e in cg.callers(Q_RES) if e.src is not None}):
             r.instance()
@@ -2108,6 +2204,7 @@ VARIANTS = [
     V('broad except around complete', 'B', 'pl/farm.py', 'Hand._res', 'except IndexError:', 'except Exception:', 'R-C18-1'),
     V('outcome not translated', 'B', 'pl/farm.py', 'Hand._res', 'state = Hand._translate(msg.success)', 'state = dawgie.pl.schedule.State.success', 'R-C18-1'),
     V('_translate maps None to failure', 'B', 'pl/farm.py', 'Hand._translate', 'if state:', 'if state is not None and not state:', 'R-C18-3'),
+    V('early return before the record when the target already left doing', 'B', 'pl/schedule.py', 'complete', "elif target in job.get('doing'):\n        job.get('doing').remove(target)", "elif target in job.get('doing'):\n        job.get('doing').remove(target)\n    else:\n        return", 'R-C18-1'),
     # R-C18-2
     V('truncating open before the read', 'B', _CH, 'append', 'if os.path.isfile(journal):', "file = open(journal, 'tw', encoding='utf-8')\n    if os.path.isfile(journal):", 'R-C18-2'),
     V('list replaced by the new entry', 'B', _CH, 'append', 'entries.append(entry)', 'entries = [entry]', 'R-C18-2'),
@@ -2125,6 +2222,7 @@ VARIANTS = [
     V('window not strict', 'B', _CH, '_load', 'after < completed < before', 'after <= completed < before', 'R-C18-4'),
     V('upper test dropped', 'B', _CH, '_load', 'after < completed < before', 'after < completed', 'R-C18-4'),
     V('outcome test dropped', 'B', _CH, '_load', "and entry['status'] == status", '', 'R-C18-4'),
+    V('time check skipped on some walked days', 'B', _CH, '_load', "if after < completed < before and entry['status'] == status:", "if (journal.endswith('01') or after < completed < before) and entry['status'] == status:", 'R-C18-4'),
     # R-C18-5
     V('after dropped again (fixed)', 'B', _API, 'failed', 'after=after, before=before', 'before=before', 'R-C18-5'),
     V('limit parsed but not passed', 'B', _API, 'succeeded', 'limit=limit, ', '', 'R-C18-5'),
